@@ -17,6 +17,7 @@ CONSTANTS
   Reorder = TRUE
   RecvAnywhere = FALSE
   PropsOn <- P_C14
+  ExportAll = FALSE
   Export = TRUE
 INVARIANT NoFlag
 INVARIANT ExportInv
